@@ -36,6 +36,10 @@ CATALOGUE = [
     '(declare-const a Real)\n(assert (> a 1.5))\n(assert (= a (/ 3 4)))\n(assert (< 10.25 a))\n',
     '(set-logic QF_NIRA)\n(declare-const i Int)\n(assert (> (* i i) 2))\n',
     '(declare-const x Int)\n(assert (= x x x))\n(assert (= x 0))\n(assert (= 0 x))\n',
+    # two variables, an equality and a second use: variable-for-variable
+    # rewrites in both directions (also with --replace-by-variable-mode dec)
+    '(declare-const a Int)\n(declare-const b Int)\n(assert (= a b))\n(assert (> a 0))\n',
+    '(declare-const p Bool)\n(declare-const q Bool)\n(assert (= q p))\n(assert (or q p))\n',
     # legal shadowing: the binding term mentions a symbol the same let binds
     '(declare-const x Int)\n(declare-const y Int)\n(assert (let ((x y) (y x)) (< x y)))\n',
     '(declare-const x Int)\n(assert (let ((x (+ x 1))) (< x 0)))\n',
@@ -52,12 +56,18 @@ class Explorer:
         from vlib import dd
         self.ns = ns
         self.res = res
-        self.muts = [(c, cls()) for c, (mod, cls, opt, grp) in
-                     dd.all_mutator_classes(ns).items()]
-        # ReplaceByVariable has two modes
+        self.muts_inc = [(c, cls()) for c, (mod, cls, opt, grp) in
+                         dd.all_mutator_classes(ns).items()]
+        # --replace-by-variable-mode dec: a run uses one mode throughout
+        self.muts_dec = [(c, m) for c, m in self.muts_inc
+                         if c != 'ReplaceByVariable']
         m = ns.mutators_core.ReplaceByVariable()
         m.repl_mode = 'dec'
-        self.muts.append(('ReplaceByVariable(dec)', m))
+        self.muts_dec.append(('ReplaceByVariable(dec)', m))
+        for c, m in self.muts_inc:
+            if c == 'ReplaceByVariable':
+                m.repl_mode = 'inc'
+        self.set_mode('inc')
         self.codes = []
         for modname in ('nodes', 'smtlib', 'mutator_utils', 'mutators_core',
                         'mutators_smtlib', 'mutators_bv', 'mutators_boolean',
@@ -74,6 +84,11 @@ class Explorer:
             return orig_init(self_, *a, **kw)
 
         ns.Node.__init__ = counting_init
+
+    def set_mode(self, mode):
+        self.mode = mode
+        self.ns.options.args().replace_by_variable_mode = mode
+        self.muts = self.muts_inc if mode == 'inc' else self.muts_dec
 
     def key(self, exprs):
         toks = refreader.canon_fresh([
@@ -297,6 +312,43 @@ def exhaustive_depth2(ex, ns, res, text, origin, cap_states=40):
     return cands
 
 
+def same_size_cycles(ex, ns, res, text, max_depth=3, cap=25):
+    """Cycles made of size-preserving proposals only (renamings, variable
+    for variable, constant for constant ...): depth-first search from the
+    seed with revisit detection on the current path."""
+    exprs = list(ns.nodeio.parse_smtlib(text))
+    size0 = ns.nodes.count_nodes(exprs)
+    found = []
+    budget = [cap]
+    seen_cycles = set()
+
+    def dfs(state, path_keys, path_states, names):
+        if budget[0] <= 0 or len(path_keys) > max_depth:
+            return
+        budget[0] -= 1
+        res.count('states_expanded')
+        for mname, i, t in ex.successors(state, cap_per_node=4):
+            if ns.nodes.count_nodes(t) != size0:
+                continue
+            res.count('edges')
+            k = ex.key(t)
+            if k in path_keys:
+                j = path_keys.index(k)
+                cyc = tuple(sorted(set(n for n, _ in names[j:] + [(mname,
+                                                                   i)])))
+                if len(path_keys) - j >= 1 and cyc not in seen_cycles:
+                    seen_cycles.add(cyc)
+                    kind = 'noop' if k == path_keys[-1] else \
+                        f'{len(path_keys) - j}-cycle'
+                    found.append((kind, names[j:] + [(mname, i)],
+                                  path_states[j:] + [t]))
+                continue
+            dfs(t, path_keys + [k], path_states + [t], names + [(mname, i)])
+
+    dfs(exprs, [ex.key(exprs)], [exprs], [])
+    return found
+
+
 def random_walk(ex, ns, res, r, text, steps=40):
     exprs = list(ns.nodeio.parse_smtlib(text))
     path = [ex.key(exprs)]
@@ -330,7 +382,7 @@ def random_walk(ex, ns, res, r, text, steps=40):
     return []
 
 
-def confirm(res, base, ns, cand, origin, idx):
+def confirm(res, base, ns, cand, origin, idx, dec=False):
     """Replay a candidate on the real tool with a command that accepts
     exactly the members of the chain."""
     kind, names, states = cand
@@ -344,7 +396,7 @@ def confirm(res, base, ns, cand, origin, idx):
     rules = [realrun.rule(f'set:{setfile}', 1, 'member\n', ''),
              realrun.rule('all', 0, 'other\n', '')]
     mnames = sorted({n.split('(')[0] for n, _ in names})
-    mode = ['--replace-by-variable-mode', 'dec'] if any(
+    mode = ['--replace-by-variable-mode', 'dec'] if dec or any(
         n.endswith('(dec)') for n, _ in names) else []
     confirmed = False
     for strat in ('hierarchical', 'ddmin'):
@@ -375,6 +427,7 @@ def confirm(res, base, ns, cand, origin, idx):
                     'strategy': strat,
                     'writes': len(writes),
                     'timed_out': run.timed_out,
+                    'dec_mode': bool(mode),
                     'origin': origin
                 })
             break
@@ -392,7 +445,12 @@ def classify(kind, mnames, texts):
     declared = {toks[i + 2] for i in range(len(toks) - 2)
                 if toks[i] == '(' and toks[i + 1] in (
                     'declare-const', 'declare-fun', 'define-fun')}
-    if any(f'|{n}|' in declared for n in declared):
+    alltoks = set()
+    for t in texts:
+        alltoks.update(refreader.lex(t))
+    if any(f'|{n}|' in declared for n in declared) or any(
+            t.startswith('|') and t[1:-1] in (declared | alltoks)
+            for t in alltoks if len(t) > 2):
         return 'cycle:simple-and-quoted-form-both-declared'
     return f'{kind if kind in ("noop", "pump") else "cycle"}:' + \
         '+'.join(mnames)
@@ -465,16 +523,30 @@ def shard(args):
             cmds = cmds[:fa] + nd + [gen_smt.Cmd(['assert', t])
                                      for t in extra] + cmds[fa:]
             seeds.append(refreader.render(gen_smt.Script(cmds).nested()))
+        ncat = len(CATALOGUE) if args['shard'] == 0 else 0
         for si, text in enumerate(seeds):
             nnodes = len(refreader.lex(text))
             res.count('tiny_seeds')
-            if nnodes <= 160:
-                cands += [(c, f'seed{args["shard"]}:{si}')
-                          for c in exhaustive_depth2(ex, ns, res, text, si)]
+            modes = ['inc', 'dec'] if si < ncat else [
+                'inc' if si % 3 else 'dec']
+            for mode in modes:
+                ex.set_mode(mode)
+                res.count(f'explorations_mode_{mode}')
+                if nnodes <= 160:
+                    cands += [(c, f'seed{args["shard"]}:{si}:{mode}')
+                              for c in exhaustive_depth2(ex, ns, res, text,
+                                                         si)]
+                if si < ncat and nnodes <= 80:
+                    cands += [(c, f'seed{args["shard"]}:{si}:{mode}:same')
+                              for c in same_size_cycles(
+                                  ex, ns, res, text, args.get('ss_depth', 3),
+                                  args.get('ss_cap', 25))]
+            ex.set_mode('inc')
             res.add_distinct(common.digest(text))
             if si < 1:
                 res.sample({'seed': text})
         for wi in range(args['walks']):
+            ex.set_mode('inc' if wi % 3 else 'dec')
             s = workload.small_script(r, r.choice(['tiny', 'small']))
             text = refreader.render(s.nested())
             res.count('walks')
@@ -489,16 +561,16 @@ def shard(args):
         for ci, (cand, origin) in enumerate(cands):
             res.count('cycle_or_noop_candidates')
             names = {n for n, _ in cand[1]}
-            if 'ReplaceByVariable' in names and \
-                    'ReplaceByVariable(dec)' in names:
-                # both modes cannot be active in one run
-                res.count('candidates_impossible_in_one_run')
-                continue
-            sig = (cand[0], tuple(sorted(names)))
+            dec = ':dec' in origin or any(n.endswith('(dec)') for n in names)
+            # one confirmation per mechanism *and seed*: the same pair of
+            # mutators can cycle for different reasons on different inputs
+            seed_id = ':'.join(origin.split(':')[:2])
+            sig = (cand[0], tuple(sorted(names)), dec, seed_id)
             if sig in done or len(done) >= ncap:
                 continue
             done.add(sig)
-            confirm(res, base, ns, cand, origin, ci)
+            confirm(res, base, ns, cand, origin, ci, dec)
+        ex.set_mode('inc')
         for i in range(args['w3']):
             bounded_progress_run(res, base, r, i)
     finally:
@@ -509,7 +581,8 @@ def shard(args):
 def run(ctx):
     q = ctx.tier == 'quick'
     shards = [{'shard': i, 'tiny': 2 if q else 60, 'walks': 2 if q else 80,
-               'confirm': 3 if q else 12, 'w3': 2 if q else 20}
+               'confirm': 3 if q else 12, 'w3': 2 if q else 20,
+               'ss_depth': 3 if q else 4, 'ss_cap': 25 if q else 300}
               for i in range(common.NCPU)]
     results = common.run_shards('checks.c03', shards, timeout=3500)
     common.merge_shards(ctx, results)
@@ -552,7 +625,7 @@ def replay(data):
                 states = [list(ns.nodeio.parse_smtlib(t)) for t in w['chain']]
                 confirm(res, base, ns, (w['kind'], [tuple(x) for x in
                                                     w['steps']], states),
-                        'replay', k)
+                        'replay', k, w.get('dec_mode', False))
     finally:
         shutil.rmtree(base, ignore_errors=True)
     for v in res.violations:
